@@ -97,6 +97,9 @@ def check(ctx):
 
     # ---- C10.b one send per payload ----
     sends = [(b, t) for b, t, fr in drop.iter_calls() if fr and lib.tail(mir.fn_name(fr), 1) in ("send", "try_send", "send_timeout")]
+    lossy = [lib.tail(mir.fn_name(fr), 2) for b, t, fr in drop.iter_calls() if fr and lib.tail(mir.fn_name(fr), 1) in ("try_send", "send_timeout", "send_deadline")]
+    ctx.check(not lossy, "C10.b", "AutoDespawnSignalInner::drop:send-cannot-be-refused", "%s:%d" % (drop.file, drop.line), "the Drop uses the blocking send on an unbounded channel",
+              "the Drop sends with %s, which can silently refuse the signal (the entity would never be despawned)" % lossy)
     cnt, _, _ = lib.event_counts(drop, [b for b, t in sends])
     oks = cnt == {1} and len(sends) == 1
     if oks:
@@ -163,7 +166,7 @@ def check(ctx):
         dn = A.method(prog, "AutoDespawner", "new")
         ctx.touch(dn)
         ok, det = lib.channel_pairing(dn, "AutoDespawner", "sender", "receiver")
-        ctx.check(ok, "C10.c", "AutoDespawner::new:channel-paired", "%s:%d" % (dn.file, dn.line), "sender and receiver are the two ends of one channel",
+        ctx.check(ok, "C10.c", "AutoDespawner::new:channel-paired", "%s:%d" % (dn.file, dn.line), "sender and receiver are the two ends of one unbounded channel",
                   "the despawner's sender and receiver are not the two ends of the same channel (%s)" % det)
         cons = [lib.fkey(bd) for bd in prog.bodies for b, i, st in bd.iter_stmts() if st["k"] == "assign" and "agg" in st["rv"] and st["rv"]["agg"].get("adt") == desp["path"]]
         ctx.check(sorted(set(cons) - derived_names(prog, desp["path"])) == ["AutoDespawner::new"], "C10.c", "AutoDespawner:constructed-only-in-new", "%s:%d" % (dn.file, dn.line),
